@@ -27,3 +27,23 @@
             self.0.decode(coder, lz, rc)
         }
     }
+
+    // ---- LZMADecoder::decode by contract for the reader-level end-of-stream harness (C16.l1.end)
+    pub(crate) static mut DEC_CALLS: u32 = 0;
+    pub(crate) static mut DEC_BYTES_FIRST: usize = 0;
+    /// call 1 (only if DEC_BYTES_FIRST > 0): that many literal bytes are decoded into the dictionary and - as the real
+    /// decode does on its Ok path - the range decoder is normalised; the following call meets the end marker: a match
+    /// with distance 0xFFFFFFFF, which the dictionary refuses ("dist overflow") BEFORE the trailing normalise of decode.
+    pub(crate) fn dec_script_stub<R: RangeReader>(s: &mut LZMADecoder, lz: &mut LZDecoder, rc: &mut RangeDecoder<R>) -> crate::Result<()> {
+        unsafe {
+            DEC_CALLS += 1;
+            if DEC_CALLS == 1 && DEC_BYTES_FIRST > 0 {
+                let mut i = 0;
+                while i < DEC_BYTES_FIRST { if lz.has_space() { lz.put_byte(0x41 + i as u8); } i += 1; }
+                rc.normalize();
+                return Ok(());
+            }
+        }
+        s.coder.reps[0] = -1;
+        Err(crate::vk::err_other("dist overflow"))
+    }
